@@ -27,8 +27,14 @@ type rec struct {
 	ESrv     string            `json:"esrv"`
 	TM       string            `json:"tm"`
 	Sig      map[string]string `json:"sig"`
-	Src      map[string]string `json:"src"` // where the keys of a server are: "db" | "fetcher"
-	Vol      bool              `json:"vol"` // the fetcher volunteers fresh copies of database-held keys
+	EType    string            `json:"etype"` // event type
+	Pres     string            `json:"pres"`  // "trusted" | "received" (tampered in transit, parsed as untrusted JSON)
+	KTop     []string          `json:"ktop"`  // what a signature covers (Redaction.tla): top-level keep list,
+	KCon     []string          `json:"kcon"`  // kept content keys of this event,
+	KTpi     []string          `json:"ktpi"`  // kept keys of content.third_party_invite,
+	KKey     string            `json:"kkey"`  // the kept content key a stale_kept signature disagrees on
+	Src      map[string]string `json:"src"`   // where the keys of a server are: "db" | "fetcher"
+	Vol      bool              `json:"vol"`   // the fetcher volunteers fresh copies of database-held keys
 	Required []string          `json:"required"`
 	Strict   bool              `json:"strict"`
 	Verdict  bool              `json:"verdict"`
@@ -60,6 +66,9 @@ type world struct {
 	db     *memDB
 	fetch  *memDB // the key fetcher's table (nil: the key ring has no fetcher)
 	sender string
+	// set when PDU.Sign and the independent signing disagree
+	signMismatch string
+	parseErr     error
 }
 
 // signingName / key material of abstract server s in this scenario. In pseudo-ID rooms s1 and s2 (when it is the
@@ -137,24 +146,112 @@ type sigEntry struct {
 	sig  string // base64
 }
 
-// signatureOf signs the event JSON as (name, id, priv) with PDU.Sign and returns the signature made.
-func signatureOf(impl gmsl.IRoomVersion, evJSON []byte, name string, id gmsl.KeyID, priv ed25519.PrivateKey) string {
-	p, err := impl.NewEventFromTrustedJSON(append([]byte(nil), evJSON...), false)
-	if err != nil {
-		panic(fmt.Sprintf("harness: event does not parse: %v", err))
+// redactedForm is the redacted form of the event as the specification defines it for the room version: the
+// projection onto the keep lists Redaction.tla derives (carried by the record), NOT the library's redaction.
+func (w *world) redactedForm(evJSON []byte) []byte {
+	var ev map[string]json.RawMessage
+	if err := json.Unmarshal(evJSON, &ev); err != nil {
+		panic(err)
 	}
-	p = p.Sign(name, id, priv)
+	ktop, kcon, ktpi := setOf(w.r.KTop), setOf(w.r.KCon), setOf(w.r.KTpi)
+	var content map[string]json.RawMessage
+	if err := json.Unmarshal(ev["content"], &content); err != nil {
+		panic(err)
+	}
+	red := map[string]json.RawMessage{}
+	for k, v := range content {
+		if !kcon[k] {
+			continue
+		}
+		if k == "third_party_invite" && w.r.EType == "m.room.member" {
+			var tpi map[string]json.RawMessage
+			if err := json.Unmarshal(v, &tpi); err != nil {
+				panic(err)
+			}
+			for nk := range tpi {
+				if !ktpi[nk] {
+					delete(tpi, nk)
+				}
+			}
+			v = marshalMap(tpi)
+		}
+		red[k] = v
+	}
+	out := map[string]json.RawMessage{}
+	for k, v := range ev {
+		if ktop[k] && k != "signatures" {
+			out[k] = v
+		}
+	}
+	out["content"] = marshalMap(red)
+	return marshalMap(out)
+}
+
+func setOf(xs []string) map[string]bool {
+	m := map[string]bool{}
+	for _, x := range xs {
+		m[x] = true
+	}
+	return m
+}
+
+// signatureOf signs the specification's redacted form of the event as (name, id, priv) and returns the signature.
+// With crossCheck the signature PDU.Sign makes is compared: a difference means that the library signs over
+// something else than the redacted form of the specification (kept in w.signMismatch, reported after the verdict).
+func (w *world) signatureOf(impl gmsl.IRoomVersion, evJSON []byte, name string, id gmsl.KeyID, priv ed25519.PrivateKey, crossCheck bool) string {
+	signed, err := gmsl.SignJSON(name, id, priv, w.redactedForm(evJSON))
+	if err != nil {
+		panic(fmt.Sprintf("harness: SignJSON: %v", err))
+	}
 	var out struct {
 		Signatures map[string]map[string]string `json:"signatures"`
 	}
-	if err := json.Unmarshal(p.JSON(), &out); err != nil {
+	if err := json.Unmarshal(signed, &out); err != nil {
 		panic(err)
 	}
 	s, ok := out.Signatures[name][string(id)]
 	if !ok {
-		panic("harness: PDU.Sign did not add the signature")
+		panic("harness: SignJSON did not add the signature")
+	}
+	if crossCheck && w.signMismatch == "" {
+		p, err := impl.NewEventFromTrustedJSON(append([]byte(nil), evJSON...), false)
+		if err != nil {
+			panic(fmt.Sprintf("harness: event does not parse: %v", err))
+		}
+		p = p.Sign(name, id, priv)
+		var lib struct {
+			Signatures map[string]map[string]string `json:"signatures"`
+		}
+		if err := json.Unmarshal(p.JSON(), &lib); err != nil {
+			panic(err)
+		}
+		if lib.Signatures[name][string(id)] != s {
+			w.signMismatch = fmt.Sprintf("PDU.Sign(%s, %s) signs something else than the redacted form the specification defines for room version %s (%s: top-level keys %v, content keys %v)",
+				name, id, w.r.Ver, w.r.EType, w.r.KTop, w.r.KCon)
+		}
 	}
 	return s
+}
+
+func marshalMap(m map[string]json.RawMessage) json.RawMessage {
+	keys := make([]string, 0, len(m))
+	for k := range m {
+		keys = append(keys, k)
+	}
+	sort.Strings(keys)
+	var b bytes.Buffer
+	b.WriteByte('{')
+	for i, k := range keys {
+		if i > 0 {
+			b.WriteByte(',')
+		}
+		kb, _ := json.Marshal(k)
+		b.Write(kb)
+		b.WriteByte(':')
+		b.Write(m[k])
+	}
+	b.WriteByte('}')
+	return b.Bytes()
 }
 
 func corruptSig(s string, variant int) string {
@@ -228,7 +325,7 @@ func (w *world) signaturesFor(impl gmsl.IRoomVersion, evJSON []byte, s, state st
 		}
 	}
 	good := func(id gmsl.KeyID, k ed25519.PrivateKey) sigEntry {
-		return sigEntry{name, id, signatureOf(impl, evJSON, name, id, k)}
+		return sigEntry{name, id, w.signatureOf(impl, evJSON, name, id, k, true)}
 	}
 	switch state {
 	case "absent":
@@ -258,7 +355,18 @@ func (w *world) signaturesFor(impl gmsl.IRoomVersion, evJSON []byte, s, state st
 		// a genuine signature of this key over the event as it was before its depth was changed
 		current(id1, k1)
 		other := setTop(evJSON, "depth", json.RawMessage("3"))
-		return []sigEntry{{name, id1, signatureOf(impl, other, name, id1, k1)}}
+		return []sigEntry{{name, id1, w.signatureOf(impl, other, name, id1, k1, false)}}
+	case "stale_kept":
+		// a genuine signature of this key that does not cover the event's value of a content key the room
+		// version's redaction keeps for this event type
+		current(id1, k1)
+		var ev map[string]json.RawMessage
+		var content map[string]json.RawMessage
+		if json.Unmarshal(evJSON, &ev) != nil || json.Unmarshal(ev["content"], &content) != nil || content[w.r.KKey] == nil {
+			panic("harness: the event lacks the kept content key " + w.r.KKey)
+		}
+		content[w.r.KKey] = json.RawMessage(`"zz-something-else"`)
+		return []sigEntry{{name, id1, w.signatureOf(impl, setTop(evJSON, "content", marshalMap(content)), name, id1, k1, false)}}
 	case "wrongkey":
 		current(id1, k1)
 		return []sigEntry{good(id1, keyFromTag(s+"/intruder"))}
@@ -271,7 +379,7 @@ func (w *world) signaturesFor(impl gmsl.IRoomVersion, evJSON []byte, s, state st
 		bad.sig = corruptSig(bad.sig, idx)
 		if userKey {
 			// the good one must be the self-verifiable one: corrupt the other key's
-			bad = sigEntry{name, id2, corruptSig(signatureOf(impl, evJSON, name, id2, k2), idx)}
+			bad = sigEntry{name, id2, corruptSig(w.signatureOf(impl, evJSON, name, id2, k2, false), idx)}
 			return []sigEntry{bad, good(id1, k1)}
 		}
 		current(id2, k2)
@@ -299,8 +407,39 @@ func (w *world) buildEvent(impl gmsl.IRoomVersion) []byte {
 		pe.RoomID = "!room:" + serverName("s1")
 	}
 	if r.Kind == "nonmember" {
-		pe.Type = "m.room.message"
-		pe.Content = spec.RawJSON(`{"body":"hello","msgtype":"m.text"}`)
+		empty := ""
+		pe.Type = r.EType
+		switch r.EType {
+		case "m.room.message":
+			pe.Content = spec.RawJSON(`{"body":"hello","msgtype":"m.text"}`)
+		case "m.room.aliases":
+			sk := serverName("s1")
+			pe.StateKey = &sk
+			pe.Content = spec.RawJSON(`{"aliases":["#a:` + sk + `"],"foo":"bar"}`)
+		case "m.room.create":
+			pe.StateKey = &empty
+			pe.Content = spec.RawJSON(`{"creator":` + q(w.sender) + `,"room_version":` + q(r.Ver) + `,"m.federate":true}`)
+			if isDomainless(r.Ver) {
+				pe.RoomID = "" // the create event of these versions has no room_id
+			}
+		case "m.room.join_rules":
+			pe.StateKey = &empty
+			pe.Content = spec.RawJSON(`{"join_rule":"restricted","allow":[{"type":"m.room_membership","room_id":"!other:` + serverName("s1") + `"}],"foo":1}`)
+		case "m.room.power_levels":
+			pe.StateKey = &empty
+			pe.Content = spec.RawJSON(`{"ban":50,"users":{` + q("@alice:"+serverName("s1")) + `:100},"invite":50,"notifications":{"room":50}}`)
+		case "m.room.history_visibility":
+			pe.StateKey = &empty
+			pe.Content = spec.RawJSON(`{"history_visibility":"shared","foo":"bar"}`)
+		case "m.room.redaction":
+			pe.Redacts = "$redacted:" + serverName("s1")
+			if !isFormatV1(r.Ver) {
+				pe.Redacts = "$" + base64.RawURLEncoding.EncodeToString(make([]byte, 32))
+			}
+			pe.Content = spec.RawJSON(`{"redacts":` + q(pe.Redacts) + `,"reason":"spam"}`)
+		default:
+			panic("harness: unknown event type " + r.EType)
+		}
 	} else {
 		pe.Type = spec.MRoomMember
 		target := w.sender
@@ -308,7 +447,11 @@ func (w *world) buildEvent(impl gmsl.IRoomVersion) []byte {
 			target = user("bob", r.TSrv)
 		}
 		pe.StateKey = &target
-		content := map[string]json.RawMessage{"membership": json.RawMessage(q(r.Kind))}
+		content := map[string]json.RawMessage{"membership": json.RawMessage(q(r.Kind)), "displayname": json.RawMessage(`"Bob <b>"`)}
+		if r.Kind == "invite" {
+			content["third_party_invite"] = json.RawMessage(`{"display_name":"b...@example.org","signed":{"mxid":` + q(target) +
+				`,"token":"tok","signatures":{"id.example.org":{"ed25519:0":"c2lnbmF0dXJl"}}}}`)
+		}
 		if r.Via {
 			content["join_authorised_via_users_server"] = json.RawMessage(q("@carol:" + serverName(r.ASrv)))
 		}
@@ -359,6 +502,16 @@ func (w *world) compose(impl gmsl.IRoomVersion, idx int) gmsl.PDU {
 	if len(sigs) > 0 {
 		sb, _ := json.Marshal(sigs)
 		final = setTop(evJSON, "signatures", sb)
+	}
+	if w.r.Pres == "received" {
+		// over federation, with a top-level key added in transit: the content hash fails, the receiver gets the
+		// redacted form, whose signatures are exactly as valid as the original's
+		p, err := impl.NewEventFromUntrustedJSON(setTop(final, "zz_added_in_transit", json.RawMessage(`{"by":"a relay"}`)))
+		if err != nil {
+			w.parseErr = err
+			return nil
+		}
+		return p
 	}
 	p, err := impl.NewEventFromTrustedJSON(final, false)
 	if err != nil {
@@ -448,7 +601,14 @@ func class(r *rec) string {
 			keys += "+volunteering"
 		}
 	}
-	return fmt.Sprintf("%s%s/%s/%s/time=%s%s", r.Kind, via, strings.Join(st, ","), strict, r.TM, keys)
+	kind := r.Kind
+	if kind == "nonmember" {
+		kind = r.EType
+	}
+	if r.Pres == "received" {
+		keys += "/received-redacted"
+	}
+	return fmt.Sprintf("%s%s/%s/%s/time=%s%s", kind, via, strings.Join(st, ","), strict, r.TM, keys)
 }
 
 // others is the state of the servers that are not required.
@@ -482,6 +642,13 @@ func replayOne(i int, raw json.RawMessage, seed int64) hx.Result {
 		ring.KeyFetchers = []gmsl.KeyFetcher{w.fetch}
 	}
 	ctx := context.Background()
+	if p == nil {
+		return hx.Result{OK: false, NT: cls, Key: "C06/received/parse-error/" + cls,
+			What: fmt.Sprintf("NewEventFromUntrustedJSON refuses the event with a key added in transit (room version %s): %v", r.Ver, w.parseErr)}
+	}
+	if r.Pres == "received" && !p.Redacted() {
+		return hx.Result{OK: false, NT: cls, Key: "C06/received/not-redacted", What: "the event with a key added in transit did not come back redacted (C04's subject)"}
+	}
 	errOne := gmsl.VerifyEventSignatures(ctx, p, ring, userIDForSender)
 	if (errOne == nil) != r.Verdict {
 		return hx.Result{OK: false, NT: cls, Key: fmt.Sprintf("C06/verify/%s:model=%v", cls, r.Verdict),
@@ -499,6 +666,9 @@ func replayOne(i int, raw json.RawMessage, seed int64) hx.Result {
 		return hx.Result{OK: false, NT: cls, Key: fmt.Sprintf("C06/verify-all/%s:model=%v", cls, r.Verdict),
 			What: fmt.Sprintf("VerifyAllEventSignatures over [valid, scenario, unsigned] (room version %s): want [nil, valid=%v, error], got %v", r.Ver, r.Verdict, errs),
 			Want: r.Verdict, Got: fmt.Sprint(errs)}
+	}
+	if w.signMismatch != "" {
+		return hx.Result{OK: false, NT: cls, Key: "C06/signed-form/" + r.EType, What: w.signMismatch}
 	}
 	return hx.Result{OK: true, NT: cls + "/others=" + others(&r)}
 }
